@@ -628,20 +628,20 @@ func TestVerifC16(t *testing.T) {
 
 	rnd := vfNewRand(out.Seed)
 	rc := rnd.Fork(1)
-	n := out.Scale(6000, 80000)
+	n := out.Scale(6000, 30000)
 	for i := 0; i < n; i++ {
 		in, cls := c16GenCtx(rc)
 		c16Emit(out, in, cls)
 	}
 	rs := rnd.Fork(2)
-	n = out.Scale(1500, 20000)
+	n = out.Scale(1500, 8000)
 	for i := 0; i < n; i++ {
 		host := vfPick(rs, c16Hosts)
 		cli, cl := c16CliName(rs, host)
 		c16EmitSrv(out, host, cli, rs.Bool(), []string{cl})
 	}
 	ra := rnd.Fork(3)
-	n = out.Scale(1500, 20000)
+	n = out.Scale(1500, 8000)
 	for i := 0; i < n; i++ {
 		c16EmitAux(out, ra)
 	}
